@@ -1,4 +1,5 @@
-(* Proofs/QueueProofs.v — lemmas about Model/Queue.v (C10). *)
+(* Proofs/QueueProofs.v — lemmas about Model/Queue.v (C10): first the keyed core (any key scheme), then the
+   repaired code (sequence-number keys), whose full FIFO theorem instantiates the guarded refinement of the core. *)
 From Coq Require Import NArith List Bool Lia ZifyBool ZifyN ZifyNat.
 From Verif Require Import Model.Queue.
 Import ListNotations.
@@ -409,37 +410,6 @@ Proof.
   intros max h H. apply fifo_partial. apply mono_guard. exact H.
 Qed.
 
-(* ---- the specification means "exactly once, in order" ---------------------------------------------- *)
-Lemma spec_item max q it :
-  map snd q ++ accepted_by max q it = delivered_by q it ++ map snd (fst (a_item max q it)).
-Proof.
-  destruct it as [o| |o n].
-  - rewrite a_item_op. cbn [fst].
-    destruct o as [[] [| |k b]|[]]; cbn [accepted_by delivered_by a_step fst]; rewrite ?app_nil_r; auto.
-    + destruct (full max q); cbn [fst]; rewrite ?app_nil_r, ?map_app; reflexivity.
-    + destruct q as [|e r]; reflexivity.
-  - cbn. rewrite app_nil_r. reflexivity.
-  - cbn [a_item fst].
-    destruct n as [|n].
-    + destruct o as [[] [| |k b]|[]]; cbn [accepted_by delivered_by]; rewrite ?app_nil_r; reflexivity.
-    + destruct o as [[] [| |k b]|[]]; cbn [accepted_by delivered_by a_step fst]; rewrite ?app_nil_r; auto.
-      * destruct (full max q); cbn [fst]; rewrite ?app_nil_r, ?map_app; reflexivity.
-      * destruct q as [|e r]; reflexivity.
-Qed.
-
-Theorem spec_exactly_once max : forall h q,
-  map snd q ++ a_accepted max q h = a_delivered max q h ++ map snd (fst (a_run max q h)).
-Proof.
-  induction h as [|it r IH]; intros q.
-  - cbn. rewrite app_nil_r. reflexivity.
-  - rewrite a_run_cons. cbn [a_accepted a_delivered fst].
-    rewrite app_assoc, spec_item, <- app_assoc, IH, app_assoc. reflexivity.
-Qed.
-
-Theorem spec_exactly_once0 : forall max h,
-  a_accepted max [] h = a_delivered max [] h ++ map snd (a_final max h).
-Proof. intros max h. exact (spec_exactly_once max h []). Qed.
-
 (* ---- the bound, unconditionally --------------------------------------------------------------------- *)
 Definition BInv (max : N) (st : qstate) : Prop :=
   ssorted (keys (db st)) = true /\
@@ -534,7 +504,7 @@ Proof.
   intros max [m d] ok s [-> | ->]; destruct ok; cbn; auto.
 Qed.
 
-(* ---- the full statement is false of the faithful (content-hash keyed) model ----------------------------- *)
+(* ---- BEFORE THE REPAIR: with content-hash keys the keyed core does not refine the FIFO -------------------- *)
 (* two contents, whose hash order is the reverse of their id order *)
 Definition w_tbl : list (batch * key) := [(1, 20); (2, 10)].
 (* equal batches share one record: the second one is lost over a restart *)
@@ -563,3 +533,231 @@ Proof. intros H. destruct fifo_refuted_equal as [Hk Hn]. exact (Hn (H 0 w_tbl w_
 
 Theorem fifo_full_refuted_by_reload_order : ~ fifo_full_statement.
 Proof. intros H. destruct fifo_refuted_order as [Hk Hn]. exact (Hn (H 0 w_tbl w_order Hk)). Qed.
+
+(* ==== the repaired code ================================================================================ *)
+Lemma r_run_cons max rst it r :
+  r_run max rst (it :: r) =
+  (fst (r_run max (fst (r_step max rst it)) r), snd (r_step max rst it) :: snd (r_run max (fst (r_step max rst it)) r)).
+Proof.
+  cbn [r_run]. destruct (r_step max rst it) as [rst' o]. cbn [fst snd].
+  destruct (r_run max rst' r) as [rst'' os]. reflexivity.
+Qed.
+
+Lemma s_run_cons max q it r :
+  s_run max q (it :: r) =
+  (fst (s_run max (fst (s_item max q it)) r), snd (s_item max q it) :: snd (s_run max (fst (s_item max q it)) r)).
+Proof.
+  cbn [s_run]. destruct (s_item max q it) as [q' o]. cbn [fst snd].
+  destruct (s_run max q' r) as [q'' os]. reflexivity.
+Qed.
+
+Lemma s_item_op max q o : s_item max q (UOp o) = (fst (s_step max q o), Some (snd (s_step max q o))).
+Proof. cbn [s_item]. destruct (s_step max q o); reflexivity. Qed.
+
+(* ---- the specification means "exactly once, in order" ---------------------------------------------- *)
+Lemma spec_item max q it :
+  q ++ accepted_by max q it = delivered_by q it ++ fst (s_item max q it).
+Proof.
+  destruct it as [o| |o n].
+  - rewrite s_item_op. cbn [fst].
+    destruct o as [[] [| |b]|[]]; cbn [accepted_by delivered_by s_step fst]; rewrite ?app_nil_r; auto.
+    + destruct (s_full max q); cbn [fst]; rewrite ?app_nil_r; reflexivity.
+    + destruct q as [|e r]; reflexivity.
+  - cbn. rewrite app_nil_r. reflexivity.
+  - cbn [s_item fst].
+    destruct n as [|n].
+    + destruct o as [[] [| |b]|[]]; cbn [accepted_by delivered_by]; rewrite ?app_nil_r; reflexivity.
+    + destruct o as [[] [| |b]|[]]; cbn [accepted_by delivered_by s_step fst]; rewrite ?app_nil_r; auto.
+      * destruct (s_full max q); cbn [fst]; rewrite ?app_nil_r; reflexivity.
+      * destruct q as [|e r]; reflexivity.
+Qed.
+
+Theorem spec_exactly_once max : forall h q,
+  q ++ s_accepted max q h = s_delivered max q h ++ fst (s_run max q h).
+Proof.
+  induction h as [|it r IH]; intros q.
+  - cbn. rewrite app_nil_r. reflexivity.
+  - rewrite s_run_cons. cbn [s_accepted s_delivered fst].
+    rewrite app_assoc, spec_item, <- app_assoc, IH, app_assoc. reflexivity.
+Qed.
+
+Theorem spec_exactly_once0 : forall max h,
+  s_accepted max [] h = s_delivered max [] h ++ s_final max h.
+Proof. intros max h. exact (spec_exactly_once max h []). Qed.
+
+(* ---- the sequence counter stays above every pending key -------------------------------------------- *)
+Lemma next_seq_fold d : forall a,
+  a <= fold_left (fun a e => N.max a (fst e + 1)) d a /\
+  (forall e : entry, In e d -> fst e + 1 <= fold_left (fun a e => N.max a (fst e + 1)) d a).
+Proof.
+  induction d as [|x d IH]; intros a; cbn [fold_left].
+  - split; [lia | intros e []].
+  - destruct (IH (N.max a (fst x + 1))) as [H1 H2].
+    pose proof (N.le_max_l a (fst x + 1)) as Hl. pose proof (N.le_max_r a (fst x + 1)) as Hr.
+    split; [eapply N.le_trans; eassumption|].
+    intros e [<-|He]; [eapply N.le_trans; eassumption | apply H2; assumption].
+Qed.
+
+Lemma next_seq_gt d k : In k (keys d) -> k < next_seq d.
+Proof.
+  intros H. apply in_keys in H as [b H]. unfold next_seq.
+  destruct (next_seq_fold d 0) as [_ H2]. specialize (H2 _ H). cbn [fst] in H2. lia.
+Qed.
+
+(* ---- the keyed specification projects onto the plain FIFO ------------------------------------------- *)
+Lemma full_proj max (q : list entry) : full max q = s_full max (map snd q).
+Proof. unfold full, s_full. rewrite map_length. reflexivity. Qed.
+
+Lemma a_step_proj max q s o :
+  map snd (fst (a_step max q (key_op s o))) = fst (s_step max (map snd q) o) /\
+  snd (a_step max q (key_op s o)) = snd (s_step max (map snd q) o).
+Proof.
+  destruct o as [[] [| |b]|[]]; cbn [key_op a_step s_step fst snd]; auto.
+  - rewrite <- full_proj. destruct (full max q); cbn [fst snd]; rewrite ?map_app; auto.
+  - destruct q as [|[k b] r]; cbn; auto.
+Qed.
+
+Lemma a_item_proj max q s it :
+  map snd (fst (a_item max q (key_item s it))) = fst (s_item max (map snd q) it) /\
+  snd (a_item max q (key_item s it)) = snd (s_item max (map snd q) it).
+Proof.
+  destruct it as [o| |o n]; cbn [key_item].
+  - rewrite a_item_op, s_item_op. cbn [fst snd]. destruct (a_step_proj max q s o) as [H1 H2].
+    rewrite H1, H2. auto.
+  - cbn. auto.
+  - cbn [a_item s_item fst snd]. destruct n as [|n]; [auto|]. destruct (a_step_proj max q s o) as [H1 _]. auto.
+Qed.
+
+(* ---- the repaired code refines the FIFO, for all histories -------------------------------------------- *)
+Definition RInv (rst : rstate) (q : list entry) : Prop :=
+  Inv (core rst) q /\ ssorted (keys q) = true /\ (forall k, In k (keys q) -> k < nseq rst).
+
+Lemma sorted_after max q s o :
+  ssorted (keys q) = true -> (forall k, In k (keys q) -> k < s) ->
+  ssorted (keys (fst (a_step max q (key_op s o)))) = true /\
+  (forall k, In k (keys (fst (a_step max q (key_op s o)))) -> k < (if accepts max q o then s + 1 else s)).
+Proof.
+  intros Hs Hlt.
+  destruct o as [[] [| |b]|[]]; cbn [key_op a_step accepts fst]; auto.
+  - destruct (full max q); cbn [fst negb]; auto.
+    rewrite keys_app. cbn [keys map fst]. split.
+    + apply ssorted_app. split; [assumption|]. split; [reflexivity|].
+      intros x y Hx [<-|[]]. apply Hlt; assumption.
+    + intros k Hk. apply in_app_or in Hk as [Hk|[<-|[]]]; [specialize (Hlt _ Hk)|]; lia.
+  - destruct q as [|e r]; cbn [fst]; auto.
+    rewrite keys_cons in Hs, Hlt. apply ssorted_cons in Hs as [_ Hs]. split; [assumption|].
+    intros k Hk. apply Hlt. right; assumption.
+Qed.
+
+Lemma r_boot_of_load d st q : st = load d -> Inv st q -> r_boot (db st) = {| core := st; nseq := next_seq q |}.
+Proof.
+  intros -> (Hm & _). cbn [load mem db] in *. subst d. reflexivity.
+Qed.
+
+Lemma r_step_refines max rst q it :
+  RInv rst q ->
+  snd (r_step max rst it) = snd (a_item max q (key_item (nseq rst) it)) /\
+  RInv (fst (r_step max rst it)) (fst (a_item max q (key_item (nseq rst) it))).
+Proof.
+  intros (HI & Hs & Hlt).
+  assert (Hq' : ssorted (keys (fst (a_item max q (key_item (nseq rst) it)))) = true).
+  { destruct it as [o| |o n]; cbn [key_item].
+    - rewrite a_item_op. cbn [fst]. apply sorted_after; assumption.
+    - exact Hs.
+    - cbn [a_item fst]. destruct n; [exact Hs | apply sorted_after; assumption]. }
+  assert (Hg : fifo_guard max q [key_item (nseq rst) it] = true).
+  { destruct it as [o| |o n]; cbn [key_item fifo_guard] in *; rewrite andb_true_r.
+    - apply sorted_after_op_guard. rewrite a_item_op in Hq'. exact Hq'.
+    - exact Hs.
+    - exact Hq'. }
+  destruct (step_refines max (core rst) q _ HI Hg) as [Ho HI'].
+  unfold r_step.
+  destruct (step max (core rst) (key_item (nseq rst) it)) as [st' r] eqn:Es. cbn [fst snd] in Ho, HI'.
+  destruct it as [o| |o n]; cbn [key_item] in *; cbn [fst snd].
+  - split; [exact Ho|]. split; [exact HI'|].
+    rewrite a_item_op in *. cbn [fst] in *. destruct HI as (Hm & _). rewrite Hm.
+    split; [exact Hq' | apply sorted_after; assumption].
+  - cbn [step] in Es. inversion Es; subst st' r.
+    rewrite (r_boot_of_load _ _ _ eq_refl HI'). split; [reflexivity|].
+    cbn [a_item fst] in *. split; [exact HI'|]. split; [exact Hs|]. cbn [nseq]. apply next_seq_gt.
+  - cbn [step] in Es. destruct (step_mem max (mem (core rst)) (key_op (nseq rst) o)) as [[m' r'] ws].
+    inversion Es; subst st' r.
+    rewrite (r_boot_of_load _ _ _ eq_refl HI'). split; [reflexivity|].
+    split; [exact HI'|]. split; [exact Hq'|]. cbn [nseq]. apply next_seq_gt.
+Qed.
+
+Theorem r_refines max : forall h rst q,
+  RInv rst q ->
+  snd (r_run max rst h) = snd (s_run max (map snd q) h) /\
+  exists q', RInv (fst (r_run max rst h)) q' /\ map snd q' = fst (s_run max (map snd q) h).
+Proof.
+  induction h as [|it r IH]; intros rst q HI.
+  - cbn. split; [reflexivity|]. exists q. auto.
+  - destruct (r_step_refines max rst q it HI) as [Ho HI'].
+    destruct (a_item_proj max q (nseq rst) it) as [Hp1 Hp2].
+    destruct (IH _ _ HI') as [Ho' (q' & HI'' & Hq')].
+    rewrite r_run_cons, s_run_cons. cbn [fst snd].
+    rewrite Ho, Ho', Hp1, Hp2. split; [reflexivity|].
+    exists q'. rewrite <- Hp1. auto.
+Qed.
+
+Lemma rinv0 : RInv r_st0 [].
+Proof.
+  split; [|split; [reflexivity | intros k []]].
+  split; [reflexivity|]. split; [constructor|]. split; [reflexivity|]. intros e; tauto.
+Qed.
+
+Theorem fifo_full : forall max h, r_fifo max h.
+Proof.
+  intros max h. destruct (r_refines max h r_st0 [] rinv0) as [Ho (q' & (HI & Hs & _) & Hq')].
+  destruct HI as (Hm & _ & Hd & Hin).
+  unfold r_fifo, r_outputs, s_outputs, r_final, s_final. cbn [map] in *.
+  split; [exact Ho|]. split.
+  - rewrite Hm. exact Hq'.
+  - assert (E : db (core (fst (r_run max r_st0 h))) = q') by (apply sorted_ext; assumption).
+    rewrite E. exact Hq'.
+Qed.
+
+(* ---- bound and no-trace for the repaired code ----------------------------------------------------------- *)
+Lemma r_step_core max rst it :
+  core (fst (r_step max rst it)) = fst (step max (core rst) (key_item (nseq rst) it)).
+Proof.
+  unfold r_step. destruct it as [o| |o n]; cbn [key_item step].
+  - destruct (step_mem max (mem (core rst)) (key_op (nseq rst) o)) as [[m' r] ws]. reflexivity.
+  - reflexivity.
+  - destruct (step_mem max (mem (core rst)) (key_op (nseq rst) o)) as [[m' r] ws]. reflexivity.
+Qed.
+
+Theorem r_bound_inv max : forall h rst, BInv max (core rst) -> BInv max (core (fst (r_run max rst h))).
+Proof.
+  induction h as [|it r IH]; intros rst HB; [exact HB|].
+  rewrite r_run_cons. cbn [fst]. apply IH. rewrite r_step_core. apply bound_step, HB.
+Qed.
+
+Theorem r_bound_both : forall max h,
+  0 < max ->
+  N.of_nat (length (mem (core (r_final max h)))) <= max /\ N.of_nat (length (db (core (r_final max h)))) <= max.
+Proof.
+  intros max h Hm. unfold r_final.
+  assert (HB : BInv max (core r_st0)) by (split; [reflexivity|]; split; [apply incl_refl | intros _; cbn; lia]).
+  destruct (r_bound_inv max h r_st0 HB) as (Hs & Hi & Hb). specialize (Hb Hm). split; [exact Hb|].
+  pose proof (NoDup_incl_length (ssorted_nodup _ Hs) Hi) as Hl. rewrite !keys_length in Hl. lia.
+Qed.
+
+Theorem r_rejected_no_trace : forall max rst o r,
+  snd (r_step max rst (UOp o)) = Some r -> (r = RInvalidId \/ r = RFull) ->
+  fst (r_step max rst (UOp o)) = rst /\ r_wlog max rst [UOp o] = [].
+Proof.
+  intros max [[m d] s] o r. unfold r_step. cbn [r_wlog wlog key_item step core mem db nseq].
+  destruct o as [[] [| |b]|[]]; cbn [key_op step_mem accepts fst snd apply_ws fold_left app];
+    try (intros E [->| ->]; inversion E; fail); auto.
+  - destruct (full max m); cbn [fst snd apply_ws fold_left app negb]; auto.
+    intros E [->| ->]; inversion E.
+  - destruct m as [|[k b] m']; cbn [fst snd apply_ws fold_left app]; intros E [->| ->]; inversion E.
+Qed.
+
+Theorem r_empty_submission_no_trace : forall max rst ok s, s = UNil \/ s = UEmpty ->
+  fst (r_step max rst (UOp (USubmit ok s))) = rst /\ r_wlog max rst [UOp (USubmit ok s)] = [].
+Proof.
+  intros max [[m d] sq] ok s [-> | ->]; destruct ok; cbn; auto.
+Qed.
